@@ -400,9 +400,9 @@ class Proxy:
                     o.tracker.stop_begin()
                 o.begin_op("stop", [("final",), ("erase",) if self.cfg["transient"] else ("freeze",)])
         finally:
+            o.end_op()
             if o.tracker:
                 o.tracker.stop_end()
-            o.end_op()
         if sys.stdout is not self.stdout_sentinel or sys.stderr is not self.stderr_sentinel:
             self._v("cleanup", "stdio-not-restored", "stdout/stderr still redirected after the block")
 
